@@ -19,7 +19,22 @@ pub assume_specification<T>[core::mem::replace::<T>](dest: &mut T, src: T) -> (r
     ensures r == *old(dest), *final(dest) == src;
 pub assume_specification<T>[Option::<T>::replace](o: &mut Option<T>, value: T) -> (r: Option<T>)
     ensures r == *old(o), *final(o) == Some(value);
-pub assume_specification[String::len](s: &String) -> (r: usize);
+// ---- byte (UTF-8) lengths and offsets of strings, in vstd's terms (vstd specifies str::len / str::is_char_boundary over encode_utf8 of the chars)
+pub open spec fn utf8_len(s: Seq<char>) -> nat { vstd::utf8::encode_utf8(s).len() }
+pub open spec fn utf8_boundary(s: Seq<char>, n: int) -> bool { vstd::utf8::is_char_boundary(vstd::utf8::encode_utf8(s), n) }
+/// the chars encoded in the first n bytes (n a character boundary)
+pub uninterp spec fn utf8_prefix(s: Seq<char>, n: int) -> Seq<char>;
+/// assumed (true of every UTF-8 string): offset 0 and the end are character boundaries
+#[verifier::external_body]
+pub proof fn axiom_utf8_ends_are_boundaries(s: Seq<char>)
+    ensures utf8_boundary(s, 0), utf8_boundary(s, utf8_len(s) as int) {}
+pub assume_specification[String::len](s: &String) -> (r: usize)
+    ensures r == utf8_len(s@);
+/// String::truncate panics when new_len is inside the string and not on a character boundary
+pub assume_specification[String::truncate](s: &mut String, new_len: usize)
+    requires new_len <= utf8_len(old(s)@) ==> utf8_boundary(old(s)@, new_len as int),
+    ensures new_len >= utf8_len(old(s)@) ==> final(s)@ == old(s)@,
+        new_len < utf8_len(old(s)@) ==> final(s)@ == utf8_prefix(old(s)@, new_len as int) && utf8_len(final(s)@) == new_len;
 pub assume_specification<T: Clone>[<[T]>::to_vec](s: &[T]) -> (r: Vec<T>)
     ensures r@.len() == s@.len(), forall|i: int| 0 <= i < s@.len() ==> cloned(#[trigger] s@[i], r@[i]);
 // closure-taking Option/Result combinators (their definitions; the closure is called only in the case shown)
